@@ -17,7 +17,11 @@ Inductive hop :=
 | HRekeyId (old new : json)         (* j = project.open_job(id=id(old)); j.statepoint = new   (handle reached BY ID) *)
 | HPlant (us : list json)           (* harness writes workspace/id(u)/signac_statepoint.json = dumps(u) for every u
                                        whose directory does not exist (a workspace filled by another process) *)
-| HFile.                            (* decoded cache file + os.listdir of the workspace, without any session *)
+| HFile                             (* decoded cache file + os.listdir of the workspace, without any session *)
+| HUpdId (old upd : json)           (* j = project.open_job(id=id(old)) — or the handle iteration yields for that id —;
+                                       j.update_statepoint(upd, overwrite=True) *)
+| HXInit (sp : json)                (* ANOTHER session, while the current one lives on: Project(root).open_job(sp).init() *)
+| HXRemove (sp : json).             (* ANOTHER session: Project(root).open_job(sp).remove() *)
 
 (* the observations made through one session: the listed-id observations of Cache.obs, then open_job(id=p)
    followed by statepoint() for every ABBREVIATED id p of the case *)
@@ -105,6 +109,9 @@ Section INST.
     | HRekeyId a b => let '(f1, s1, r) := op_rekey_id fr8 lb8 f s (cid8 a) b in ((f1, s1), ret_unit r)
     | HPlant us => ((fold_left plant us f, s), RUnit)
     | HFile => ((f, s), RFile (cache_file f) (listing f))
+    | HUpdId a u => let '(f1, s1, r) := op_upd_id fr8 lb8 f s (cid8 a) u in ((f1, s1), ret_unit r)
+    | HXInit sp => let '(f1, _, r) := op_init fr8 lb8 f fresh sp in ((f1, s), ret_unit r)
+    | HXRemove sp => let '(f1, _, r) := op_remove fr8 f fresh sp in ((f1, s), ret_unit r)
     | HMisname a b =>
         ((if isdir f (jdir (cid8 a)) && negb (exists_ f (jdir (cid8 b))) then
             match rename f (jdir (cid8 a)) (jdir (cid8 b)) with FOk f1 => f1 | FErr _ => f end
